@@ -118,6 +118,17 @@ def _net(site, basic, caps, voltage=None, wrapper=None, omit=None):
         bkw = {} if omit == "all" else {"basic_evse": bool(basic)}
         with warnings.catch_warnings(), contextlib.redirect_stdout(io.StringIO()):
             warnings.simplefilter("ignore")
+            # "the predefined site" is what a FRESH call of the factory returns, whatever was done to networks built earlier:
+            # an earlier network of the same arguments is built first and stripped (constraints removed, tolerances blown up,
+            # an uncontrolled baseline experiment), then the network under judgement is built
+            try:
+                decoy = getattr(S, sp["factory"])(**bkw, **kw)
+                for nm in list(decoy.constraint_index):
+                    decoy.remove_constraint(nm)
+                decoy.violation_tolerance = 1e9
+                decoy.relative_tolerance = 1e9
+            except Exception:  # noqa: BLE001  (a factory that cannot build is reported by the real build below)
+                pass
             if wrapper == "pos" and omit is None:      # deprecated wrapper, positional (caltech only)
                 net = S.CaltechACN(bool(basic), 208 if voltage is None else voltage, *caps)
             elif wrapper in ("kw", "pos"):
